@@ -7,6 +7,7 @@ import hashlib
 import inspect
 import json
 import os
+import shutil
 import sys
 import time
 import traceback
@@ -543,6 +544,8 @@ def main(prop, harness_factory, *, level, explanation, assumptions, trusted_base
     ap.add_argument("--tier", default=os.environ.get("VERIF_TIER", "quick"))
     ap.add_argument("--replay", default=None)
     ap.add_argument("--only", default=None)
+    ap.add_argument("--child", type=int, default=None, help="internal: run harness number CHILD only and pickle the result")
+    ap.add_argument("--child-out", default=None)
     a = ap.parse_args(argv)
     tier = a.tier if a.tier in ("quick", "thorough") else "quick"
     seed = int(os.environ.get("VERIF_SEED", "0") or 0)
@@ -561,24 +564,42 @@ def main(prop, harness_factory, *, level, explanation, assumptions, trusted_base
     if a.replay:
         return replay_file(a.replay, hs, prop)
 
+    timeout_ms = 20000 if tier == "quick" else 120000
+    total_budget = float(os.environ.get("VF_TOTAL_BUDGET_S", 900 if tier == "quick" else 6 * 3600))
+
+    def run_one(h, into):
+        try:
+            run_harness(h, into, tier=tier, timeout_ms=timeout_ms, seed=seed, known=known, prop=prop, replay_dir=replay_dir)
+        except Exception as e:  # engine / harness bug -> inconclusive, never a violation
+            into.inconclusive.append("%s: harness error %s: %s" % (h.name, type(e).__name__, e))
+            traceback.print_exc()
+
+    if a.child is not None:  # worker process of a parallel run: one harness, result handed back as a pickle
+        import pickle
+
+        run_one(hs[a.child], res)
+        with open(a.child_out, "wb") as f:
+            pickle.dump(res, f)
+        return EXIT_OK
+
     nconf = 0
     try:
         nconf = symnp.conformance(seed)
     except AssertionError as e:
         res.inconclusive.append("shim conformance failed: %s" % (e,))
-    timeout_ms = 20000 if tier == "quick" else 120000
-    if pre:
-        pre(res, tier)
-    total_budget = float(os.environ.get("VF_TOTAL_BUDGET_S", 900 if tier == "quick" else 6 * 3600))
-    for h in hs:
-        if time.time() - t0 > total_budget:
-            res.inconclusive.append("%s: not run -- the time budget of this tier (%ds) was used up by earlier harnesses" % (h.name, total_budget))
-            continue
-        try:
-            run_harness(h, res, tier=tier, timeout_ms=timeout_ms, seed=seed, known=known, prop=prop, replay_dir=replay_dir)
-        except Exception as e:  # engine / harness bug -> inconclusive, never a violation
-            res.inconclusive.append("%s: harness error %s: %s" % (h.name, type(e).__name__, e))
-            traceback.print_exc()
+    jobs = int(os.environ.get("VF_JOBS", "0") or 0) or min(16, os.cpu_count() or 1)
+    if jobs > 1 and len(hs) > 1:
+        # every harness in its own interpreter: no solver state leaks from one harness into the next (z3's NRA heuristics
+        # depend on the history of the process), and the harnesses of a check run side by side
+        _run_parallel(prop, hs, res, a, tier, jobs, total_budget, t0, pre)
+    else:
+        if pre:
+            pre(res, tier)
+        for h in hs:
+            if time.time() - t0 > total_budget:
+                res.inconclusive.append("%s: not run -- the time budget of this tier (%ds) was used up by earlier harnesses" % (h.name, total_budget))
+                continue
+            run_one(h, res)
     if post:
         post(res, tier)
     wall = time.time() - t0
@@ -624,6 +645,85 @@ def main(prop, harness_factory, *, level, explanation, assumptions, trusted_base
     if res.inconclusive:
         return EXIT_INCONCLUSIVE
     return EXIT_OK
+
+
+def _merge(res, r):
+    for v in r.violations:
+        res.violations.append(v)
+    for k in r.known:
+        if k not in res.known:
+            res.known.append(k)
+    res.inconclusive.extend(r.inconclusive)
+    for k, v in r.stats.items():
+        if isinstance(v, set):
+            res.stats[k] |= v
+        elif isinstance(v, dict):
+            for b, c in v.items():
+                res.stats[k][b] = res.stats[k].get(b, 0) + c
+        else:
+            res.stats[k] += v
+    res.samples.extend(r.samples[: max(0, 4 - len(res.samples))])
+    res.harness_rows.extend(r.harness_rows)
+    res.functions.update(r.functions)
+
+
+def _run_parallel(prop, hs, res, a, tier, jobs, total_budget, t0, pre):
+    import pickle
+    import subprocess
+    import tempfile
+
+    scratch = os.environ.get("VF_SCRATCH") or os.path.join(ROOT, "scratch")
+    os.makedirs(scratch, exist_ok=True)
+    tmp = tempfile.mkdtemp(prefix="par_%s_" % prop, dir=scratch)
+    cmd = [sys.executable, "-m", "checks." + prop, "--tier", tier] + (["--only", a.only] if a.only else [])
+    pending = list(range(len(hs)))
+    running = {}  # index -> (Popen, outfile)
+    done = {}
+    pre_done = pre is None
+    try:
+        while pending or running:
+            while pending and len(running) < jobs:
+                i = pending.pop(0)
+                out = os.path.join(tmp, "h%d.pkl" % i)
+                running[i] = (subprocess.Popen(cmd + ["--child", str(i), "--child-out", out], stdout=sys.stderr), out)
+            if not pre_done:  # CrossHair part runs in this process while the harness workers are busy
+                pre(res, tier)
+                pre_done = True
+            time.sleep(0.2)
+            over = time.time() - t0 > total_budget
+            for i, (p, out) in list(running.items()):
+                if p.poll() is None and not over:
+                    continue
+                if p.poll() is None:
+                    p.kill()
+                    p.wait()
+                    done[i] = "%s: stopped -- the time budget of this tier (%ds) was used up" % (hs[i].name, total_budget)
+                else:
+                    try:
+                        with open(out, "rb") as f:
+                            done[i] = pickle.load(f)
+                    except Exception as e:  # noqa
+                        done[i] = "%s: harness worker failed (exit %s): %s" % (hs[i].name, p.returncode, e)
+                del running[i]
+            if over:
+                for i in pending:
+                    done[i] = "%s: not run -- the time budget of this tier (%ds) was used up by earlier harnesses" % (hs[i].name, total_budget)
+                pending = []
+        if not pre_done:
+            pre(res, tier)
+    finally:
+        for p, _ in running.values():
+            try:
+                p.kill()
+            except OSError:
+                pass
+        shutil.rmtree(tmp, ignore_errors=True)
+    for i in range(len(hs)):
+        r = done.get(i)
+        if isinstance(r, str):
+            res.inconclusive.append(r)
+        elif r is not None:
+            _merge(res, r)
 
 
 def write_evidence(prop, ev):
